@@ -137,6 +137,8 @@ BYTE_SAMPLES = [
     ('utf-8', '\ufeff#ж\n€,"""\r\n"'),
     ('latin-1', 'é,"ÿ\r\n",\xa0\r\n#z\ré'),
     ('latin-1', '\xef\xbb\xbfa,\xe9\r\n"q""\r\n",b'),
+    ('utf-8', 'x\r\n\ufeffé\n\ufeff#\r\ufeff'),
+    ('latin-1', 'a\n\xef\xbb\xbfb\r\n\xef\xbb\xbf'),
 ]
 
 
@@ -200,7 +202,7 @@ def shard_bytes(shard, nshards, tier, seed, scratch):
 @st.composite
 def st_long(draw):
     policy, dlm = draw(st.sampled_from(POLICIES))
-    piece = st.one_of(st.sampled_from(['a', '"', ',', '\n', '\r', '\r\n', '#', ' ', '""', '"a,b"', 'é', '𝄞', '\r\r\n', '"x\r\ny"', '#c\n']), st.text(max_size=5))
+    piece = st.one_of(st.sampled_from(['a', '"', ',', '\n', '\r', '\r\n', '#', ' ', '""', '"a,b"', 'é', '𝄞', '\r\r\n', '"x\r\ny"', '#c\n', '\ufeff', '\n\ufeff']), st.text(max_size=5))
     text = ''.join(draw(st.lists(piece, min_size=0, max_size=60)))
     ncuts = draw(st.integers(0, 12))
     cuts = sorted(set(draw(st.lists(st.integers(1, max(1, len(text))), min_size=ncuts, max_size=ncuts))))
